@@ -31,11 +31,13 @@ NoTies(c) == ~HasTie(c)
 (* fill rule: destination nodata, else source nodata, else NaN for floats, else 0.  Encoded values: NaN is -1 *)
 FillRule(cfg) == IF cfg.dst_nodata # <<>> THEN cfg.dst_nodata[1] ELSE IF cfg.src_nodata # <<>> THEN cfg.src_nodata[1] ELSE IF cfg.float THEN -1 ELSE 0
 
+\* source pixels holding the source nodata value are "no data": the destination pixels fed from them hold the fill value
+Masked(img, cfg, fill) == IF cfg.src_nodata = <<>> THEN img ELSE [r \in DOMAIN img |-> [q \in DOMAIN img[r] |-> IF img[r][q] = cfg.src_nodata[1] THEN fill ELSE img[r][q]]]
 (* verdict on logged images: e.dask, e.numpy = sequences (planes) of matrices; e.src = planes of id matrices *)
 ImagesV(e) ==
   LET fill == FillRule(e.cfg) IN
   IF e.dask # e.numpy THEN "chunked_result_differs_from_whole_array_result"
   ELSE IF \E p \in DOMAIN e.dask, yd \in 0..(e.c.hd - 1), xd \in 0..(e.c.wd - 1) : ~MapsInside(e.c, xd, yd) /\ e.dask[p][yd + 1][xd + 1] # fill THEN "uncovered_pixel_does_not_hold_the_fill_value"
-  ELSE IF \E p \in DOMAIN e.numpy : e.numpy[p] # NNImage(e.c, e.src[p], fill) THEN "drift"
+  ELSE IF \E p \in DOMAIN e.numpy : e.numpy[p] # Masked(NNImage(e.c, e.src[p], fill), e.cfg, fill) THEN "drift"
   ELSE "ok"
 =============================================================================
